@@ -19,6 +19,13 @@ impl SerError for Error {
     }
 }
 
+/// The announced length of a sequence is only a hint, a huge one must not be
+/// allocated up front (the allocation would panic or abort before the first
+/// element is seen)
+fn cautious_capacity(len: usize) -> usize {
+    len.min(4096)
+}
+
 impl Serializer for ValueSerializer {
     type Ok = Value;
     type Error = Error;
@@ -144,7 +151,7 @@ impl Serializer for ValueSerializer {
 
     fn serialize_seq(self, len: Option<usize>) -> Result<Self::SerializeSeq> {
         Ok(SerializeVecValue {
-            vec: Vec::with_capacity(len.unwrap_or(0)),
+            vec: Vec::with_capacity(cautious_capacity(len.unwrap_or(0))),
         })
     }
 
@@ -169,7 +176,7 @@ impl Serializer for ValueSerializer {
     ) -> Result<Self::SerializeTupleVariant> {
         Ok(SerializeTupleVariantValue {
             name: String::from(variant),
-            vec: Vec::with_capacity(len),
+            vec: Vec::with_capacity(cautious_capacity(len)),
         })
     }
 
